@@ -138,7 +138,12 @@ class SimLLM(LLM):
             call.reply = reply
             if self.streaming and run_manager is not None and reply:
                 chunks = w.chunker(call, reply) if w.chunker else [reply]
-                for ch in chunks:
+                gap_fn = getattr(w, "chunk_gap_fn", None)
+                for i, ch in enumerate(chunks):
+                    if gap_fn is not None and i:
+                        g = gap_fn(call, i)
+                        if g:
+                            await asyncio.sleep(g)
                     await run_manager.on_llm_new_token(token=ch, chunk=GenerationChunk(text=ch))
             if "pre_return_yield" in w.buggify:
                 await asyncio.sleep(0)
